@@ -58,6 +58,13 @@ pub struct WorldExec {
     leak: bool,
     /// how long the quiescence barrier (and `reload_bounded`) waits before answering `sync-timeout`
     pub wait_secs: u64,
+    static_mode: bool,
+    /// set when a reload pass loaded an asset that was not cached before the pass: from then on the cached values
+    /// depend on the (unspecified) order in which the assets of that pass were reloaded — see known finding F-C05d —
+    /// and engines that compare values with the model stop the case here
+    pub unspecified: bool,
+    /// kernel tid of the reloader thread (liveness through `/proc/self/task`), when it could be determined
+    hr_os_tid: Option<u64>,
 }
 
 pub const ALL_TYPES: &[&str] = &["S0", "S1", "S2", "N0", "I", "M00", "M01", "M10", "M11", "M20", "M21", "M30", "M31", "M40", "M41", "M50", "M51",
@@ -90,10 +97,9 @@ impl WorldExec {
     pub fn new(frontend: &str, mode: &str) -> WorldExec {
         quiet_panics();
         *loader_faults() = (0, BTreeMap::new());
+        { let mut l = ledger(); l.created.clear(); l.dropped.clear(); }
         assets_manager::verif::set_yield_hook(Some(yield_hook));
-        // thread ids only grow: the reloader thread of this cache is the first one above every id seen so far
-        // (a scan of all known ids under the lock starved the new thread once thousands of worlds had been created)
-        let known_max: u64 = HR_THREADS.lock().unwrap_or_else(|e| e.into_inner()).keys().next_back().copied().unwrap_or(0);
+        let known_max: u64 = HR_OS_TID.lock().unwrap_or_else(|e| e.into_inner()).keys().next_back().copied().unwrap_or(0);
         let (local, via_any) = match frontend { "shared" => (false, false), "any" => (false, true), "local" => (true, false), _ => (true, true) };
         let src = MemSource::new(mode == "hot" || mode == "nohot-ctor");
         let (fe, has_reloader) = if local {
@@ -103,16 +109,19 @@ impl WorldExec {
         } else {
             (Fe::Shared(Box::new(AssetCache::with_source(src.clone()))), mode == "hot")
         };
-        // the cache's reloader thread shows up at its first `select.ready()`
-        let mut hr_thread = None;
+        // identity of the cache's reloader thread (verif hook)
+        let hr_thread = match &fe { Fe::Shared(c) => c.verif_reloader_id().map(|i| i as u64), _ => None };
+        // its kernel tid: the thread registers itself at its first `select.ready()`; rust thread ids only grow, so it is the
+        // first one above every id seen before the cache was created (best effort: without it a dead thread costs a time-out)
+        let mut hr_os_tid = None;
         if has_reloader {
             let t0 = std::time::Instant::now();
-            while hr_thread.is_none() && t0.elapsed().as_secs() < 10 {
-                hr_thread = HR_THREADS.lock().unwrap_or_else(|e| e.into_inner()).range(known_max + 1..).next().map(|(k, _)| *k);
-                std::thread::yield_now();
+            while hr_os_tid.is_none() && t0.elapsed().as_millis() < 2000 {
+                hr_os_tid = HR_OS_TID.lock().unwrap_or_else(|e| e.into_inner()).range(known_max + 1..).next().map(|(_, o)| *o);
+                if hr_os_tid.is_none() { std::thread::yield_now(); }
             }
         }
-        WorldExec { src, fe, via_any, has_reloader, handles: BTreeMap::new(), next_h: 0, watchers: BTreeMap::new(), hr_thread, leak: false, wait_secs: 20, universe_ids: crate::eng_cache::IDS.iter().map(|s| s.to_string()).chain(["".to_string(), "d".to_string(), "d.e".to_string()]).collect() }
+        WorldExec { src, fe, via_any, has_reloader, handles: BTreeMap::new(), next_h: 0, watchers: BTreeMap::new(), hr_thread, hr_os_tid, leak: false, wait_secs: 20, static_mode: false, unspecified: false, universe_ids: crate::eng_cache::IDS.iter().map(|s| s.to_string()).chain(["".to_string(), "d".to_string(), "d.e".to_string()]).collect() }
     }
 
     /// Quiescence barrier without sleeping: nothing is pending in either channel and the reloader
@@ -124,9 +133,10 @@ impl WorldExec {
         let mut spins = 0u32;
         while t0.elapsed().as_secs() < self.wait_secs {
             spins = spins.wrapping_add(1);
-            if spins % 256 == 0 && !self.reloader_alive() { return false; }
-            let quiet = tx.verif_pending() == 0 && c.verif_msgs_pending() == Some(0)
-                && HR_THREADS.lock().unwrap_or_else(|e| e.into_inner()).get(&t).copied() == Some(true);
+            if spins % 256 == 0 && !self.reloader_alive() { return false; }   // killed (e.g. by a panic): it never reports back
+            let state = assets_manager::verif::reloader_in_ready(t as usize);
+            if state.is_none() && t0.elapsed().as_millis() > 200 { return false; }   // the reloader thread is gone
+            let quiet = tx.verif_pending() == 0 && c.verif_msgs_pending() == Some(0) && state == Some(true);
             if quiet { stable += 1; if stable >= 2 { return true; } } else { stable = 0; }
             std::thread::yield_now();
         }
@@ -163,11 +173,7 @@ impl WorldExec {
 
     /// false once the reloader thread of this cache has exited (e.g. killed by a panic)
     pub fn reloader_alive(&self) -> bool {
-        let Some(t) = self.hr_thread else { return true };
-        match HR_OS_TID.lock().unwrap_or_else(|e| e.into_inner()).get(&t).copied() {
-            Some(o) => std::path::Path::new(&format!("/proc/self/task/{o}")).exists(),
-            None => true,
-        }
+        match self.hr_os_tid { Some(o) => std::path::Path::new(&format!("/proc/self/task/{o}")).exists(), None => true }
     }
 
     fn any(&self) -> AnyCache<'_> {
@@ -214,6 +220,18 @@ impl WorldExec {
     pub fn op(&mut self, line: &str) -> String {
         let w: Vec<&str> = line.split_whitespace().collect();
         if w.is_empty() { return "bad-op".into(); }
+        let is_pass = self.has_reloader && (w[0] == "reload" || w[0] == "enhance" || (w[0] == "notify" && self.static_mode));
+        if is_pass {
+            let before: Vec<(String, String)> = self.snapshot().into_keys().collect();
+            let out = self.op_inner(line);
+            if self.snapshot().keys().any(|k| !before.contains(k)) { self.unspecified = true; }
+            return out;
+        }
+        self.op_inner(line)
+    }
+
+    fn op_inner(&mut self, line: &str) -> String {
+        let w: Vec<&str> = line.split_whitespace().collect();
         let s = |i: usize| -> String { w.get(i).map(|x| unhexs(x)).unwrap_or_default() };
         if w[0].starts_with("src.") && w.len() >= 2 { let id = s(1); self.note_id(&id); }
         match w[0] {
@@ -360,8 +378,21 @@ impl WorldExec {
                     let c: &'static AssetCache<MemSource> = unsafe { &*(&**c as *const AssetCache<MemSource>) };
                     c.enhance_hot_reloading();
                     self.leak = true;
+                    self.static_mode = true;
                 }
                 if self.sync() { "ok".into() } else { "sync-timeout".into() }
+            }
+            // C13: the ownership ledger of tracked values (created by loaders / passed to get_or_insert; dropped)
+            "ledger" => { let l = ledger(); format!("c={} d={}", l.created.len(), l.dropped.len()) }
+            // C13: view the entry stored as type T at type R through the untyped handle
+            "view" if w.len() == 4 => {
+                let (t, r, id) = (w[1], w[2], s(3));
+                let c = self.any();
+                let out: Option<String> = with_storable!(t, T => c.get_cached::<T>(&id).map(|h| {
+                    let u = h.as_untyped();
+                    with_storable!(r, R => format!("ref={} is={} guard={}", u.downcast_ref::<R>().is_some(), u.is::<R>(), u.read().downcast::<R>().is_ok()), else "bad-op".to_string())
+                }), else Some("bad-op".to_string()));
+                out.unwrap_or_else(|| "absent".into())
             }
             "rid" if w.len() == 3 => {
                 let id = s(2);
@@ -391,6 +422,11 @@ impl WorldExec {
     /// Handle numbers are "n-th distinct entry seen": a removed entry's address is forgotten (the allocator may
     /// reuse it for a new entry, which must get a new number); numbering continues.
     fn rekey(&mut self) {}
+
+    /// number of live cache entries whose value is tracked by the ownership ledger
+    pub fn live_tracked(&self) -> usize {
+        self.snapshot().keys().filter(|(t, _)| t.starts_with('S') || t.starts_with('M') || t == "N0").count()
+    }
 
     pub fn rid_of(&self, ty: &str, id: &str) -> Option<usize> {
         let c = self.any();
